@@ -87,6 +87,10 @@ func c15Config(rt *rapid.T, url string) map[string]any {
 		map[string]any{"name": "amt", "type": "numeric"}, map[string]any{"name": "log_addr", "type": "bytea"}, map[string]any{"name": "tx_to", "type": "bytea"}, map[string]any{"name": "block_time", "type": "numeric"}}}
 	if rapid.Bool().Draw(rt, "uniq") {
 		table["unique"] = []any{[]any{"ig_name", "src_name", "block_num", "tx_idx", "log_idx", "abi_idx"}}
+		if rapid.Bool().Draw(rt, "disableunique") {
+			// shovel adds no key of its own; the listed one is still created
+			table["disable_unique"] = true
+		}
 	}
 	if rapid.Bool().Draw(rt, "index") {
 		table["index"] = []any{[]any{"f"}, []any{"memo", "amt"}}
@@ -128,6 +132,21 @@ func c15Config(rt *rapid.T, url string) map[string]any {
 			"block": []any{map[string]any{"name": "tx_to", "column": "tx_to"}, map[string]any{"name": "block_time", "column": "block_time"}},
 		}
 		igs = append(igs, late)
+	}
+	if rapid.IntRange(0, 2).Draw(rt, "bareig") == 0 {
+		// an integration whose table declares no column at all (shovel adds the identity columns):
+		// its table name, unique and index entries are spliced like any other
+		bare := map[string]any{
+			"name": "bareig", "enabled": true, "sources": []any{map[string]any{"name": "src1", "start": 1}},
+			"table": map[string]any{"name": "baret", "index": []any{[]any{"block_num"}}, "unique": []any{[]any{"ig_name", "src_name", "block_num", "tx_idx"}}},
+		}
+		switch rapid.IntRange(0, 2).Draw(rt, "barecols") {
+		case 0:
+			bare["table"].(map[string]any)["columns"] = []any{}
+		case 1:
+			bare["table"].(map[string]any)["columns"] = nil
+		}
+		igs = append(igs, bare)
 	}
 	return map[string]any{
 		"pg_url": "postgres://x", "dashboard": map[string]any{"root_password": "pw"},
